@@ -129,6 +129,17 @@ def build(case):
             d.subs = [d.subs[1], d.subs[2], d.subs[0]]
         elif kind == "dst-last":
             d.subs = [d.subs[0], d.subs[2], d.subs[1]]
+    elif kind == "early-rule":
+        # rules that start long before 1900 (Exchange writes DTSTART:1601...) or shortly before it with a COUNT
+        _, _, std, delta, start_year, bound = case
+        dst = std + delta
+        count = 10 if bound == "count" else None
+        on_d = rule_onsets(start_year, 3, -1, "SU", 2, count=count)
+        on_s = rule_onsets(start_year, 10, -1, "SU", 3, count=count)
+        r = "FREQ=YEARLY" + (";COUNT=10" if count else "")
+        d.add("STANDARD", std, std, "EST0", [datetime(start_year, 1, 1)])
+        d.add("DAYLIGHT", std, dst, "EDT1", on_d, r + ";BYDAY=-1SU;BYMONTH=3")
+        d.add("STANDARD", dst, std, "EST1", on_s, r + ";BYDAY=-1SU;BYMONTH=10")
     elif kind in ("rdate", "rdate-lines", "rdate-unsorted"):
         _, _, std, delta, names = case
         dst = std + delta
@@ -466,6 +477,9 @@ def definitions(quick):
                                     if quick and i % 2:
                                         continue
                                     yield ("def", kind, std, delta, ordn, months, wd, bound, names)
+    for std in (0, -300, 330):
+        for start_year, bound in ((1601, "none"), (1895, "count"), (1850, "none"), (1899, "count")):
+            yield ("def", "early-rule", std, 60, start_year, bound)
     for std in STD_OFFSETS:
         for delta in DELTAS:
             for names in ("given", "absent", "same"):
